@@ -45,6 +45,9 @@ var c14Locations = []string{"file:///root.raml", "file://./api/root.yaml", "http
 	"file:///a/already%20encoded.raml", "file:///a/100%.raml", "C:\\work\\api\\root.raml", "file:///a/b.raml#/types/T", "http://ex.org/api.json?rev=2&x=(1)",
 	"FILE:///Upper/Case.RAML", "file:///a//b/../c.raml", "root.raml", "file:///quote\"and'tick`.raml", "file:///tab\there.raml", " file:///leading-space.raml"}
 
+// unreadableMembers is switched on by C14 only (other checks compare reports and need documents that are accepted)
+var unreadableMembers = false
+
 func genSourceMaps(t *rapid.T, g *m.Graph) *m.SourceMaps {
 	s := &m.SourceMaps{Root: pick(t, c14Locations, "root"), Entries: map[int][]m.LexEntry{}}
 	propIRIs := []string{m.NS + "p0", m.NS + "e0", "http://a.ml/vocabularies/core#name"}
@@ -69,6 +72,12 @@ func genSourceMaps(t *rapid.T, g *m.Graph) *m.SourceMaps {
 		}
 		if rapid.IntRange(0, 7).Draw(t, "foreign") == 0 {
 			es = append(es, m.LexEntry{Element: "amf://id#not-in-graph", Range: genRange(t)})
+		}
+		if unreadableMembers && rapid.IntRange(0, 3).Draw(t, "unreadableMember") == 0 {
+			// a member that is not a well-formed entry, before or after the node's own entry
+			bad := m.LexEntry{Element: "http://ex.org/v#p0", Range: genRange(t), Unreadable: pick(t, []string{"element-is-a-link", "no-element", "empty-entry"}, "unreadableKind")}
+			pos := rapid.IntRange(0, len(es)).Draw(t, "unreadableAt")
+			es = append(es[:pos:pos], append([]m.LexEntry{bad}, es[pos:]...)...)
 		}
 		s.Entries[i] = es
 	}
@@ -114,7 +123,9 @@ func genSourceMaps(t *rapid.T, g *m.Graph) *m.SourceMaps {
 func genC14(t *rapid.T) c14Case {
 	text, graphs, _ := genProfileAndGraphs(t, "c14", 1)
 	g := graphs[0]
+	unreadableMembers = rapid.IntRange(0, 5).Draw(t, "withUnreadableMembers") == 0
 	c := c14Case{ProfileText: text, Graph: g, Maps: genSourceMaps(t, g)}
+	unreadableMembers = false
 	c.Opts = m.LDOpts{Unwrap1: rapid.Bool().Draw(t, "unwrap1"), Embed: rapid.Bool().Draw(t, "embed"), NativeLit: rapid.Bool().Draw(t, "native"), GraphWrap: rapid.IntRange(0, 1).Draw(t, "wrap")}
 	genScale(t, g, 16)
 	if rapid.IntRange(0, 11).Draw(t, "padded") == 0 {
@@ -287,6 +298,11 @@ func decideC14(c c14Case) ev.Verdict {
 	without := c.Graph.JSONLD(c.Opts)
 	rw := validateVia(c.Route, c.ProfileText, with)
 	ro := validateVia(c.Route, c.ProfileText, without)
+	if rw.Panic == "" && rw.Err != nil && !ro.failed() && c.Maps.HasUnreadable() {
+		// a member list with an unreadable member: refusing the document is an answer (C17 owns "no panic"); when
+		// the validator does answer with a report, the well-formed entries are judged as usual below
+		return ev.Verdict{Discard: true, Detail: "document with an unreadable source-map member was refused", Obs: map[string]int{"refused_unreadable_source_map_member": 1}}
+	}
 	if rw.failed() || ro.failed() {
 		return ev.Violation("c14-call-failed:"+classifyErr(rw), "validation failed: with maps: %s / without: %s\n%s", trunc(rw.errString(), 300), trunc(ro.errString(), 300), c.ProfileText)
 	}
